@@ -1,11 +1,12 @@
 """I/O drawer decoders: history log (C16), ILOG (C14), trace (C15)."""
+import os
 import z3
 
 from contracts.common import *
 from pyvc.unit import Unit, Contract, LoopInv
 from pyvc.seq import Chunk, list_term, val_term, RecFn, Val, v_snoc, v_nil
 from pyvc.models import LazySeq
-from pyvc.values import Opq, I, lit, str_term
+from pyvc.values import Opq, I, lit, str_term, Unsupported
 
 IO = "io_drawer."
 
@@ -1011,7 +1012,211 @@ def spec_ilog_native(data, path):
     return lines
 
 
-ILOG_UNITS = [FormatTimestamp, EntryInit, ReportedErr, ExactMatch, Matches, GetMessage, GetEntry, ParseIlog]
+# ---- the reader of the PTE table, for any header file
+def v_pte_entry(fields):
+    """opaque: the table entry _add_entry makes from the five field texts of one table line"""
+    return ufun('v_pte_entry', PyStr, PyStr, PyStr, PyStr, PyStr, Val)(*[str_term(f) for f in fields])
+
+
+class CAddEntry(Contract):
+    """_add_entry(fields): appends exactly one entry, a function of the five field texts (AddEntry below proves which one for
+    parameter fields of up to 5 (thorough: 6) characters; the bounded grammar companion compares whole tables)"""
+    target = TABLE + "._add_entry"
+
+    def model(self, it, table, fields):
+        if not (isinstance(fields, tuple) and len(fields) == 5 and all(f is not None for f in fields)):
+            raise Unsupported("_add_entry with other than five field texts")
+        lst = field(table, 'entries')
+        it.note_write(lst, None, "entries.append")
+        lst.append(v_pte_entry(fields))
+        return None
+
+
+class TableFileInv(LoopInv):
+    """entries == E(k), in_table == S(k); for line k (s/e/m = it matches the start / end / entry pattern):
+       S(k+1) = s or (not e and S(k));  E(k+1) = E(k) ++ [entry(groups of line k)] if not s and not e and S(k) and m, else E(k)"""
+    func = TABLE + "._parse_header_file"
+    loop = 0
+    modifies_locals = ('line', 'in_table', 'match')
+
+    def fns(self, ctx):
+        if not hasattr(ctx, 'ptf_fns'):
+            ctx.ptf_fns = (RecFn('ptf_in', z3.BoolSort()), RecFn('ptf_entries', Val))
+        return ctx.ptf_fns
+
+    def heap_targets(self, it, fr):
+        return [field(fr.locals['self'], 'entries')]
+
+    def step_defs(self, it, fr, k):
+        import io_drawer.ilog as IM
+        ctx = it.ctx
+        S, E = self.fns(ctx)
+        line = file_line(field(fr.locals['self'], 'header_file_path'), k)
+        s, e, m = re_pred(IM.TBL_START_RE, line), re_pred(IM.TBL_END_RE, line), re_pred(IM.TBL_ENTRY_RE, line)
+        item = v_pte_entry([mkstr([Opq(re_grp(IM.TBL_ENTRY_RE, g, line))]) for g in range(1, 6)])
+        S.unfold(ctx, k, lambda prev, kk: z3.Or(s, z3.And(z3.Not(e), prev)))
+        E.unfold(ctx, k, lambda prev, kk: z3.If(z3.And(z3.Not(s), z3.Not(e), S.at(k), m), v_snoc(prev, item), prev))
+
+    def entry_defs(self, it, fr):
+        ctx = it.ctx
+        S, E = self.fns(ctx)
+        if not getattr(ctx, 'ptf_base', False):
+            ctx.ptf_base = True
+            S.define_base(ctx, z3.BoolVal(False))
+            E.define_base(ctx, list_term(list(field(fr.locals['self'], 'entries'))))
+
+    def havoc(self, it, fr, i):
+        ctx = it.ctx
+        self.entry_defs(it, fr)
+        fr.locals['in_table'] = ctx.fresh('ptf_in_now', 'bool')
+        field(fr.locals['self'], 'entries')[:] = [Chunk(ctx.fresh('ptf_so_far', Val))]
+
+    def inv(self, it, fr, i):
+        self.entry_defs(it, fr)
+        S, E = self.fns(it.ctx)
+        if not isinstance(i, int) or i > 0:
+            self.step_defs(it, fr, simp(zint(i) - 1))
+        return And(Iff(fr.locals['in_table'], S.at(i)), list_term(field(fr.locals['self'], 'entries')) == E.at(i))
+
+
+def gen_pte_table_text(rng):
+    def entry(rng):
+        pat = ''.join(rng.choice("0123456789ABCDEFabcdef**") for _ in range(8))
+        msg = ''.join(rng.choice("abc %dx:-") for _ in range(rng.randrange(0, 10)))
+        if rng.random() < 0.2:
+            msg += r' \"q\" '
+        par = rng.choice(["", "4", "3, 4", "1,2,3,4", " 2 ", "0, 5", "12"])
+        return rng.choice(['    { "%s", "%s", {%s}, "%s", %d },', '{"%s","%s",{%s},"%s",%d},', ' { "%s" , "%s" , { %s } , "%s" , %d } , ',
+                           '{ "%s", "%s", {%s}, "%s", %d }']) % (pat, msg, par, rng.choice(["a.cpp", "", "x y.c"]), rng.randrange(0, 3000))
+    return gen_lines(rng, ["static struct pte_entry_struct static_pte_entry_table[PTE_TABLE_SIZE] =",
+                           "struct pte_entry_struct static_pte_entry_table[] = {", "  static   struct pte_entry_struct  static_pte_entry_table[3]={ "],
+                     ['    { ""        , "The End" }', '{"","The End"},', ' { "" , "The End", {}, "", 0 }'], entry,
+                     ["", "// comment", "{", "};", "int x = 3;", '{ "0100", "broken', "#define N 4"])
+
+
+def entry_tuple(e):
+    return (e.pte_pattern, e.message_format, tuple(e.params), e.file, e.line)
+
+
+def native_add_entry_spec(g):
+    """independent reading of one table line's five fields"""
+    return (g[0], g[1].strip().replace('\\"', '"'), tuple(int(c) for c in g[2] if c in "0123456789" and 1 <= int(c) <= 4), g[3], int(g[4]))
+
+
+class TableFileRead(Unit):
+    """PTETable._parse_header_file for a header file of any number of arbitrary lines: the entries are the fold of the table
+    grammar's state machine over the lines, in file order, one entry per entry line inside a table"""
+    prop = "C14"
+    name = "PTETable._parse_header_file"
+    target = TABLE + "._parse_header_file"
+    contracts = [CAddEntry]
+    invariants = [TableFileInv]
+    env = LinesEnv
+    min_obligations = 4
+
+    def inputs(self, S):
+        if S.symbolic:
+            return dict(self=Obj(lookup_qualname(TABLE), dict(header_file_path="table.h", entries=[])))
+        return native_text_file_input(S, 'header_file_path', gen_pte_table_text)
+
+    def call_native(self, inp):
+        from io_drawer.ilog import PTETable
+        return with_text_file(inp['_text'], lambda p: PTETable(p).entries)
+
+    def check(self, P, inp, old, out):
+        P.prove(out.returned, "returns for every file")
+        if not out.returned:
+            return
+        if not P.symbolic:
+            import io_drawer.ilog as IM
+            want, ins = [], False
+            for line in inp['_text'].splitlines(True):
+                if IM.TBL_START_RE.fullmatch(line):
+                    ins = True
+                elif IM.TBL_END_RE.fullmatch(line):
+                    ins = False
+                elif ins and IM.TBL_ENTRY_RE.fullmatch(line):
+                    want.append(native_add_entry_spec(IM.TBL_ENTRY_RE.fullmatch(line).groups()))
+            P.prove([entry_tuple(e) for e in out.value] == want, "entries == one per entry line inside a table, in file order")
+            return
+        ctx = P.ctx
+        S_, E = [v for v in ctx.invariants.values()][0].fns(ctx)
+        m = ctx.ghost.get(TableFileInv.func + '#loop0.exit_index')
+        how = ctx.ghost.get(TableFileInv.func + '#loop0.exit')
+        P.prove(m is not None and how == 'exhausted', "every line of the file is read")
+        if m is None:
+            return
+        n = ufun('file_nlines', PyStr, z3.IntSort())(lit("table.h"))
+        P.prove(Eq(m, n), "up to the last line")
+        P.prove(list_term(field(inp['self'], 'entries')) == E.at(m), "entries == one per entry line inside a table, in file order")
+        P.prove([e for e in ctx.fs if e[0] != 'open_r'] == [], "the file is only read")
+        P.prove(len([e for e in ctx.fs if e[0] == 'open_r']) == 1, "and it is read at this call (no remembered table)")
+
+
+class AddEntry(Unit):
+    """PTETable._add_entry on the five field texts of one table line: exactly one entry is appended; pattern, message
+    (stripped, escaped quotes resolved), file and line number are the fields' own; params are the decimal digits 1..4 of the
+    parameter field, in order.  Parameter fields of 0..5 (thorough tier: 0..6) ASCII characters, symbolic (a stated bound: the shipped tables use at most
+    '1, 2, 3, 4'); message and file texts are opaque (any length)."""
+    prop = "C14"
+    name = "PTETable._add_entry"
+    target = TABLE + "._add_entry"
+    shards = 7 if os.environ.get('PYVC_TIER') == 'thorough' else 6
+    size_bound = "parameter field of 0..%d characters" % (shards - 1)
+
+    def inputs(self, S):
+        k = self.shard if S.symbolic else S.choice("nchars", list(range(11)))
+        ps = S.text("params_str", k)
+        if S.symbolic:
+            ln = mkstr([Opq(ufun('ae_line_text', PyStr)())])
+        else:
+            ln = str(S.int("line", 0, 99999))
+        self._fields = (S.text("pattern", 8), S.opaque_str("format"), ps, S.opaque_str("file"), ln)
+        return dict(self=Obj(lookup_qualname(TABLE), dict(header_file_path="t.h", entries=[])) if S.symbolic else None,
+                    fields=self._fields)
+
+    def pre(self, S, inp):
+        f = inp['fields']
+        c = [pattern_ok(f[0])]
+        if S.symbolic:
+            t = str_term(f[4])
+            c.append(ufun('int_literal_valid', PyStr, z3.IntSort(), z3.BoolSort())(t, I(10)))
+            c += [And(x >= 0, x < 128) for x in chars_of(f[2])]     # ASCII parameter field (non-ASCII decimal digits: not modelled)
+        else:
+            c.append(all(ord(x) < 128 for x in f[2]))
+        return And(*c)
+
+    def call_native(self, inp):
+        from io_drawer.ilog import PTETable
+        t = object.__new__(PTETable)
+        t.header_file_path, t.entries = "t.h", []
+        t._add_entry(inp['fields'])
+        return t.entries
+
+    def check(self, P, inp, old, out):
+        P.prove(out.returned, "returns")
+        if not out.returned:
+            return
+        f = inp['fields']
+        ents = list(field(inp['self'], 'entries')) if P.symbolic else list(out.value)
+        P.prove(len(ents) == 1, "exactly one entry is appended")
+        if len(ents) != 1:
+            return
+        e = ents[0]
+        P.prove(Eq(field(e, 'pte_pattern'), f[0]), "pattern == field 1")
+        P.prove(Eq(field(e, 'file'), f[3]), "file == field 4")
+        want = tuple(simp(c - 48) if is_z3(c) else c - 48 for c in chars_of(f[2]) if branch(And(c >= 49, c <= 52)))
+        P.prove(Eq(tuple(field(e, 'params')), want), "params == the digits 1..4 of field 3, in order")
+        if P.symbolic:
+            P.prove(Eq(field(e, 'line'), ufun('int_of_str', PyStr, z3.IntSort(), z3.IntSort())(str_term(f[4]), I(10))), "line == int(field 5)")
+            rep = ufun('replace_5c_22_22', PyStr, PyStr)(ufun('strip_ws', PyStr, PyStr)(str_term(f[1])))
+            P.prove(Eq(field(e, 'message_format'), mkstr([Opq(rep)])), "message == field 2 stripped, with \\\" read as \"")
+        else:
+            P.prove(field(e, 'line') == int(f[4]), "line == int(field 5)")
+            P.prove(field(e, 'message_format') == f[1].strip().replace('\\"', '"'), "message == field 2 stripped, with \\\" read as \"")
+
+
+ILOG_UNITS = [FormatTimestamp, EntryInit, ReportedErr, ExactMatch, Matches, GetMessage, GetEntry, ParseIlog, TableFileRead, AddEntry]
 UNITS = HLOG_UNITS + ILOG_UNITS
 
 
@@ -1793,7 +1998,135 @@ def spec_format_entry_native(e, sf):
     return out
 
 
-TRACE_UNITS = [HeaderRead, EntryRead, GetArgs, IsMatch, TSGetMessage, GetTraceString, BufferRead, FormatEntry]
+# ---- the reader of the trace string file, for any file
+def v_trace_string(h, msg, loc):
+    return ufun('v_trace_string', z3.IntSort(), PyStr, PyStr, Val)(zint(h), str_term(msg), str_term(loc))
+
+
+def ts_objs_term(lst):
+    """Val term of a list of TraceString objects (opaque prefix allowed)"""
+    out = []
+    for x in lst:
+        if isinstance(x, Chunk):
+            out.append(x)
+        else:
+            out.append(v_trace_string(field(x, 'hash_value'), field(x, 'message_format'), field(x, 'location')))
+    return list_term(out)
+
+
+def strip_ws(t):
+    return mkstr([Opq(ufun('strip_ws', PyStr, PyStr)(t))])
+
+
+class StringFileInv(LoopInv):
+    """trace_strings == T(k); for line k: T(k+1) = T(k) ++ [TraceString(int(group 1), strip(group 2), strip(group 3))] if the
+    line matches the line pattern, else T(k)"""
+    func = TR + "TraceStringFile.__init__"
+    loop = 0
+    modifies_locals = ('line', 'match')
+
+    def fn(self, ctx):
+        if not hasattr(ctx, 'tsf_fn'):
+            ctx.tsf_fn = RecFn('tsf_strings', Val)
+        return ctx.tsf_fn
+
+    def heap_targets(self, it, fr):
+        return [field(fr.locals['self'], 'trace_strings')]
+
+    def step_defs(self, it, fr, k):
+        ctx = it.ctx
+        T = self.fn(ctx)
+        RE = lookup_qualname(TR + "TraceStringFile").cls.LINE_RE if hasattr(lookup_qualname(TR + "TraceStringFile"), 'cls') else None
+        if RE is None:
+            import io_drawer.trace as TM
+            RE = TM.TraceStringFile.LINE_RE
+        line = file_line(fr.locals['string_file_path'], k)
+        m = re_pred(RE, line)
+        h = ufun('int_of_str', PyStr, z3.IntSort(), z3.IntSort())(re_grp(RE, 1, line), I(10))
+        item = v_trace_string(h, strip_ws(re_grp(RE, 2, line)), strip_ws(re_grp(RE, 3, line)))
+        T.unfold(ctx, k, lambda prev, kk: z3.If(m, v_snoc(prev, item), prev))
+
+    def entry_defs(self, it, fr):
+        ctx = it.ctx
+        if not getattr(ctx, 'tsf_base', False):
+            ctx.tsf_base = True
+            self.fn(ctx).define_base(ctx, v_nil())
+
+    def havoc(self, it, fr, i):
+        self.entry_defs(it, fr)
+        field(fr.locals['self'], 'trace_strings')[:] = [Chunk(it.ctx.fresh('tsf_so_far', Val))]
+
+    def inv(self, it, fr, i):
+        self.entry_defs(it, fr)
+        T = self.fn(it.ctx)
+        if not isinstance(i, int) or i > 0:
+            self.step_defs(it, fr, simp(zint(i) - 1))
+        return ts_objs_term(field(fr.locals['self'], 'trace_strings')) == T.at(i)
+
+
+def gen_string_file_text(rng):
+    def entry(rng):
+        msg = ''.join(rng.choice("abc %d%s|>:_-") for _ in range(rng.randrange(0, 12)))
+        loc = ''.join(rng.choice("abc.()12 ") for _ in range(rng.randrange(0, 8)))
+        return rng.choice(['%d||%s||%s', '  %d  || %s || %s  ', '%d||%s||%s||extra']) % (rng.randrange(0, 10 ** rng.randrange(1, 11)), msg, loc)
+    junk = ["", "# comment", "12x||a||b", "||a||b", "123|a|b", "-5||neg||x.c(1)"]
+    out = [rng.choice(junk) if rng.random() < 0.25 else entry(rng) for _ in range(rng.randrange(0, 10))]
+    txt = ''.join(l + "\n" for l in out)
+    if out and rng.random() < 0.2:
+        txt = txt[:-1]
+    return txt
+
+
+class StringFileInit(Unit):
+    """TraceStringFile(path) for a file of any number of arbitrary lines: the trace strings are exactly the lines that match the
+    line pattern, in file order, each with hash = int(group 1), message / location = groups 2 / 3 without surrounding blanks"""
+    prop = "C15"
+    name = "TraceStringFile.__init__"
+    target = TR + "TraceStringFile.__init__"
+    contracts = []
+    invariants = [StringFileInv]
+    env = LinesEnv
+    min_obligations = 4
+
+    def inputs(self, S):
+        if S.symbolic:
+            return dict(self=Obj(lookup_qualname(TR + "TraceStringFile"), {}), string_file_path="strings.txt")
+        return native_text_file_input(S, 'string_file_path', gen_string_file_text)
+
+    def call_native(self, inp):
+        from io_drawer.trace import TraceStringFile
+        return with_text_file(inp['_text'], lambda p: TraceStringFile(p).trace_strings)
+
+    def check(self, P, inp, old, out):
+        P.prove(out.returned, "returns for every file")
+        if not out.returned:
+            return
+        if not P.symbolic:
+            from io_drawer.trace import TraceStringFile
+            want = []
+            for line in inp['_text'].splitlines(True):
+                m = TraceStringFile.LINE_RE.fullmatch(line)
+                if m:
+                    want.append((int(m.group(1)), m.group(2).strip(), m.group(3).strip()))
+            P.prove([(t.hash_value, t.message_format, t.location) for t in out.value] == want,
+                    "trace strings == the matching lines, in file order (hash, message, location)")
+            return
+        ctx = P.ctx
+        T = [v for v in ctx.invariants.values()][0].fn(ctx)
+        m = ctx.ghost.get(StringFileInv.func + '#loop0.exit_index')
+        how = ctx.ghost.get(StringFileInv.func + '#loop0.exit')
+        P.prove(m is not None and how == 'exhausted', "every line of the file is read")
+        if m is None:
+            return
+        n = ufun('file_nlines', PyStr, z3.IntSort())(str_term(inp['string_file_path']))
+        P.prove(Eq(m, n), "up to the last line")
+        P.prove(ts_objs_term(field(inp['self'], 'trace_strings')) == T.at(m),
+                "trace strings == the matching lines, in file order (hash, message, location)")
+        P.prove([e for e in ctx.fs if e[0] != 'open_r'] == [], "the file is only read")
+        P.prove(len([e for e in ctx.fs if e[0] == 'open_r']) == 1, "and it is read at this construction (no remembered strings)")
+
+
+TRACE_UNITS = [HeaderRead, EntryRead, GetArgs, IsMatch, TSGetMessage, GetTraceString, BufferRead, FormatEntry, StringFileInit]
 UNITS = HLOG_UNITS + ILOG_UNITS + TRACE_UNITS
 
 
